@@ -763,3 +763,149 @@ Proof.
     match type of H with complete_cb c ?r ?s0 = _ => destruct (complete_cb_core _ _ _ _ _ H) as [C2 N2] end;
     (apply D; auto; eapply core_eq_trans; eauto).
 Qed.
+
+(** * Windows ([step]) and reachable states *)
+Lemma raw_extends_post s s1 s' os os' :
+  raw_ok s s1 os -> extends s1 s' -> (forall p c, In (OStart p c) os' -> In (OStart p c) os) ->
+  raw_ok s s' os'.
+Proof.
+  intros (W & K & M & St) X I.
+  split; [eapply extends_wf; eauto|]. split; [destruct X as (K2 & _); congruence|].
+  split; [eapply mono_trans; [exact M|apply extends_mono; auto]|].
+  intros p c H. destruct (St _ _ (I _ _ H)) as (k & t & t' & H1 & H2 & R).
+  exists k, t, t'. split; auto. split; auto. eapply extends_nth; eauto.
+Qed.
+
+Lemma step_ok s l s' os : wf s -> step s l = Some (s', os) -> raw_ok s s' os.
+Proof.
+  intros W H. apply step_decompose in H as (_ & s1 & os1 & R & [(_ & -> & ->)|(_ & S)]).
+  - eapply step_raw_ok; eauto.
+  - pose proof (step_raw_ok _ _ _ _ W R) as R1.
+    destruct (settle_obs_app _ _ _ _ _ S) as (ex & -> & Fx).
+    eapply raw_extends_post; [exact R1|eapply settle_extends; eauto|].
+    intros p c I. apply in_app_or in I as [I|I]; auto.
+    rewrite Forall_forall in Fx. destruct (Fx _ I).
+Qed.
+
+Lemma wf_init c : wf (init_of c).
+Proof.
+  split; [|reflexivity]. unfold wf0, init_of, init. cbn. constructor; cbn; auto.
+  - constructor.
+  - intros k. split; [intros []|]. intros (t & H & _). destruct k; discriminate.
+  - intros [|k] t H; discriminate.
+  - intros [|k] t H; discriminate.
+  - intros [|k] t H; discriminate.
+Qed.
+
+Lemma inv_reachf c s : reachf c s -> wf s /\ c_K s = cf_K c.
+Proof.
+  induction 1 as [|s l s' os R [W K] C H|s s' os R [W K] H].
+  - split; [apply wf_init|reflexivity].
+  - destruct (step_raw_ok _ _ _ _ W H) as (W' & K' & _). split; auto. congruence.
+  - apply settle1_extends in H. split; [eapply extends_wf; eauto|]. destruct H as (K' & _). congruence.
+Qed.
+
+Lemma inv_reach c s : reach c s -> wf s /\ c_K s = cf_K c.
+Proof. intros R. apply inv_reachf, reach_reachf, R. Qed.
+
+(** * 1. semaphore invariant *)
+Lemma sem_invariant_f c s : reachf c s -> slots_used s + sem_free s = cf_K c /\ c_K s = cf_K c.
+Proof.
+  intros R. destruct (inv_reachf _ _ R) as [[W _] K]. split; auto. rewrite <- K. exact (wf_sem _ _ _ _ W).
+Qed.
+
+Lemma sem_invariant c s : reach c s -> slots_used s + sem_free s = cf_K c /\ c_K s = cf_K c.
+Proof. intros R. apply sem_invariant_f, reach_reachf, R. Qed.
+
+(** * 2. bound *)
+Lemma countb_le {A} (p q : A -> bool) l : (forall x, p x = true -> q x = true) -> countb p l <= countb q l.
+Proof.
+  intros H. induction l as [|x r IH]; cbn; auto.
+  destruct (p x) eqn:P; [rewrite (H _ P); lia|destruct (q x); lia].
+Qed.
+
+Lemma executing_le_used s : executing s <= slots_used s.
+Proof. apply countb_le. intros x. unfold is_running, holds. destruct (t_st x); auto. Qed.
+
+Lemma bound_f c s : reachf c s -> executing s <= slots_used s /\ slots_used s <= cf_K c.
+Proof. intros R. split; [apply executing_le_used|]. destruct (sem_invariant_f _ _ R). lia. Qed.
+
+Lemma bound c s : reach c s -> executing s <= slots_used s /\ slots_used s <= cf_K c.
+Proof. intros R. apply bound_f, reach_reachf, R. Qed.
+
+Lemma bound_trace c tr s oss : run (init_of c) tr = Some (s, oss) -> executing s <= cf_K c.
+Proof.
+  intros H. assert (R : reach c s) by (eapply run_reach; [apply reach_init|exact H]).
+  destruct (bound _ _ R). lia.
+Qed.
+
+(* every prefix of a trace is a trace: the bound holds at every instant *)
+Lemma run_app s tr1 tr2 s2 oss :
+  run s (tr1 ++ tr2) = Some (s2, oss) ->
+  exists s1 oss1 oss2, run s tr1 = Some (s1, oss1) /\ run s1 tr2 = Some (s2, oss2) /\ oss = oss1 ++ oss2.
+Proof.
+  revert s oss. induction tr1 as [|l r IH]; cbn; intros s oss H.
+  - exists s, [], oss. auto.
+  - destruct (step s l) as [[sa os]|]; [|discriminate].
+    destruct (run sa (r ++ tr2)) as [[sb ossb]|] eqn:E; [|discriminate]. injection H as <- <-.
+    destruct (IH _ _ E) as (s1 & o1 & o2 & H1 & H2 & ->).
+    exists s1, (os :: o1), o2. rewrite H1. auto.
+Qed.
+
+Lemma bound_every_instant c tr1 tr2 s2 oss :
+  run (init_of c) (tr1 ++ tr2) = Some (s2, oss) ->
+  exists s1 oss1, run (init_of c) tr1 = Some (s1, oss1) /\ executing s1 <= cf_K c.
+Proof.
+  intros H. apply run_app in H as (s1 & o1 & o2 & H1 & _ & _).
+  exists s1, o1. split; auto. eapply bound_trace; eauto.
+Qed.
+
+(** * 3. handler entries take a slot *)
+Lemma start_takes_slot c s l s' os p cancelled :
+  reach c s -> step s l = Some (s', os) -> In (OStart p cancelled) os ->
+  exists k t t', nth_error (tasks s) k = Some t /\ nth_error (tasks s') k = Some t' /\
+    t_params t = p /\ t_params t' = p /\ t_cancelled t = cancelled /\ t_builtin t = false /\
+    (t_st t = TAtAcquire \/ t_st t = TWaiting) /\ t_st t' = TRunning.
+Proof.
+  intros R H I. destruct (inv_reach _ _ R) as [W _].
+  destruct (step_ok _ _ _ _ W H) as (_ & _ & _ & St). exact (St _ _ I).
+Qed.
+
+Lemma builtin_never_running c s k t :
+  reach c s -> nth_error (tasks s) k = Some t -> t_builtin t = true -> t_st t <> TRunning.
+Proof. intros R. destruct (inv_reach _ _ R) as [[W _] _]. exact (wf_bi _ _ _ _ W k t). Qed.
+
+(* a built-in takes a slot like any handler (it is counted by [holds]) but reports no handler entry *)
+Lemma builtin_takes_slot s k t s' os :
+  nth_error (tasks s) k = Some t -> t_builtin t = true -> t_cancelled t = false ->
+  step_raw s (LRelAcquire k) = Some (s', os) ->
+  os = [] /\
+  ((sem_free s' = pred (sem_free s) /\ 0 < sem_free s /\
+    nth_error (tasks s') k = Some (t <| t_st := TAtHandled (ORes []) |>) /\
+    holds (t <| t_st := TAtHandled (ORes []) |>) = true) \/
+   (sem_free s' = sem_free s /\ nth_error (tasks s') k = Some (t <| t_st := TWaiting |>))).
+Proof.
+  intros E B C. cbn. rewrite E.
+  destruct (t_st t); try discriminate.
+  destruct (negb (unit_running s t)); [discriminate|]. rewrite C.
+  assert (Wt : forall s' os,
+     Some (set_task k (fun t => t <| t_st := TWaiting |>) s <| sem_wait ::= fun q => q ++ [k] |>, @nil obs) = Some (s', os) ->
+     os = [] /\ sem_free s' = sem_free s /\ nth_error (tasks s') k = Some (t <| t_st := TWaiting |>)).
+  { intros s2 os2 [= <- <-]. unfold set_task. cbn. split; auto. split; auto. apply nth_error_upd_nth_eq; auto. }
+  destruct (sem_free s) as [|fr] eqn:F.
+  { intros H. destruct (Wt _ _ H) as (-> & H1 & H2). split; auto. }
+  destruct (sem_wait s).
+  - rewrite B. intros [= <- <-]. split; auto. left. unfold set_task. cbn. split; auto. split; [lia|].
+    split; auto. apply nth_error_upd_nth_eq; auto.
+  - intros H. destruct (Wt _ _ H) as (-> & H1 & H2). split; auto.
+Qed.
+
+(** * 4. wait queue *)
+Lemma wait_queue c s : reach c s ->
+  NoDup (sem_wait s) /\
+  (forall k, In k (sem_wait s) <-> exists t, nth_error (tasks s) k = Some t /\ t_st t = TWaiting) /\
+  (0 < sem_free s -> sem_wait s = []).
+Proof.
+  intros R. destruct (inv_reach _ _ R) as [[W I4] _].
+  split; [exact (wf_nodup _ _ _ _ W)|]. split; [exact (wf_wait _ _ _ _ W)|exact I4].
+Qed.
